@@ -38,7 +38,7 @@ var (
 	// CACHE: loads and stores over memories larger than every cache, spread over
 	// all lines.
 	CACHE = Profile{Name: "CACHE", MinLen: 8, MaxLen: 60, PoolMin: 2, PoolMax: 5, MemSizes: bigMem,
-		W: Weights{Alu: 3, Load: 5, Store: 5, Branch: 1, Loop: 1, Walk: 3}, TakenPct: 50, ZeroRaPct: 5, MaxDyn: 3000, LineSpread: true}
+		W: Weights{Alu: 3, Load: 5, Store: 5, Branch: 1, Loop: 1, Walk: 3, EvictReread: 1}, TakenPct: 50, ZeroRaPct: 5, MaxDyn: 3000, LineSpread: true}
 	// TAIL body.
 	TAIL = Profile{Name: "TAIL", MinLen: 0, MaxLen: 16, PoolMin: 2, PoolMax: 5, MemSizes: midMem,
 		W: Weights{Alu: 6, Load: 3, Store: 3, Branch: 1, Loop: 1}, TakenPct: 50, ZeroRaPct: 5, MaxDyn: 1500, LineSpread: true}
